@@ -1,6 +1,352 @@
 #!/usr/bin/env python3
-"""Fact translator: regenerates coq/theories/Generated.v from the C sources.
-usage: extract_facts.py <srcdir> <out.v>   (placeholder: extended below)"""
-import sys
-src, out = sys.argv[1], sys.argv[2]
-open(out, 'w').write("(* generated by tools/extract_facts.py - do not edit *)\nFrom YV Require Import Prelude.\n")
+"""Fact translator: regenerates coq/theories/Generated.v from the C sources of
+/repo's working tree.  Everything emitted here is a constant, a table or a
+side-effect-free C expression; the Coq development proves its side conditions
+about these (GeneratedChecks.v), so that an edit of the source which changes a
+fact breaks a proof obligation.
+
+usage: extract_facts.py <srcdir> <out.v>
+Fails (exit 1) when a pattern no longer matches: that is a broken obligation,
+not a silent skip."""
+import re, sys, os
+
+
+class Fail(Exception):
+    pass
+
+
+# ---------------------------------------------------------------------------
+# A tokenizer and recursive-descent parser for side-effect-free C expressions
+# ( ?: , || && , comparisons, + - * / %, unary - !, member access a->b / a.b,
+# integer literals, identifiers, casts are dropped ) printing Gallina over Z.
+
+TOK = re.compile(r'\s*(?:(\d+)[uUlL]*|([A-Za-z_]\w*(?:\s*(?:->|\.)\s*[A-Za-z_]\w*)*)|(<=|>=|==|!=|&&|\|\||<<|>>|[-+*/%<>!?:()]))')
+
+
+def tokenize(s):
+    out, i = [], 0
+    s = s.strip()
+    while i < len(s):
+        m = TOK.match(s, i)
+        if not m:
+            raise Fail('cannot tokenize C expression at: ' + s[i:i + 30])
+        if m.group(1) is not None:
+            out.append(('num', int(m.group(1))))
+        elif m.group(2) is not None:
+            out.append(('id', re.sub(r'\s+', '', m.group(2))))
+        else:
+            out.append(('op', m.group(3)))
+        i = m.end()
+    return out
+
+
+class P:
+    def __init__(self, toks, ren):
+        self.t, self.i, self.ren = toks, 0, ren
+
+    def peek(self):
+        return self.t[self.i] if self.i < len(self.t) else ('eof', None)
+
+    def eat(self, v=None):
+        k = self.peek()
+        if v is not None and k[1] != v:
+            raise Fail('expected %r, got %r' % (v, k))
+        self.i += 1
+        return k
+
+    def expr(self):
+        c = self.lor()
+        if self.peek() == ('op', '?'):
+            self.eat()
+            a = self.expr()
+            self.eat(':')
+            b = self.expr()
+            return '(if %s then %s else %s)' % (self.asbool(c), a, b)
+        return c
+
+    def asbool(self, c):
+        if c.startswith('(B:'):
+            return c[3:-1]
+        return '(negb (Z.eqb %s 0))' % c
+
+    def asint(self, c):
+        if c.startswith('(B:'):
+            return '(if %s then 1 else 0)' % c[3:-1]
+        return c
+
+    def lor(self):
+        a = self.land()
+        while self.peek() == ('op', '||'):
+            self.eat()
+            b = self.land()
+            a = '(B:(orb %s %s))' % (self.asbool(a), self.asbool(b))
+        return a
+
+    def land(self):
+        a = self.cmp()
+        while self.peek() == ('op', '&&'):
+            self.eat()
+            b = self.cmp()
+            a = '(B:(andb %s %s))' % (self.asbool(a), self.asbool(b))
+        return a
+
+    def cmp(self):
+        a = self.add()
+        while self.peek()[0] == 'op' and self.peek()[1] in ('<', '>', '<=', '>=', '==', '!='):
+            op = self.eat()[1]
+            b = self.add()
+            a, b = self.asint(a), self.asint(b)
+            f = {'<': 'Z.ltb %s %s', '>': 'Z.ltb %s %s', '<=': 'Z.leb %s %s', '>=': 'Z.leb %s %s',
+                 '==': 'Z.eqb %s %s', '!=': 'negb (Z.eqb %s %s)'}[op]
+            if op in ('>', '>='):
+                a, b = b, a
+            a = '(B:(%s))' % (f % (a, b))
+        return a
+
+    def add(self):
+        a = self.mul()
+        while self.peek()[0] == 'op' and self.peek()[1] in ('+', '-'):
+            op = self.eat()[1]
+            b = self.mul()
+            a = '(%s %s %s)' % (self.asint(a), op, self.asint(b))
+        return a
+
+    def mul(self):
+        a = self.unary()
+        while self.peek()[0] == 'op' and self.peek()[1] in ('*', '/', '%'):
+            op = self.eat()[1]
+            b = self.unary()
+            o = {'*': '*', '/': '/', '%': 'mod'}[op]     # operands are non-negative where this is used
+            a = '(%s %s %s)' % (self.asint(a), o, self.asint(b))
+        return a
+
+    def unary(self):
+        k = self.peek()
+        if k == ('op', '-'):
+            self.eat()
+            return '(- %s)' % self.asint(self.unary())
+        if k == ('op', '!'):
+            self.eat()
+            return '(B:(negb %s))' % self.asbool(self.unary())
+        if k == ('op', '('):
+            self.eat()
+            e = self.expr()
+            self.eat(')')
+            return e
+        if k[0] == 'num':
+            self.eat()
+            return str(k[1])
+        if k[0] == 'id':
+            self.eat()
+            name = k[1]
+            if name not in self.ren:
+                raise Fail('unexpected identifier %s in C expression' % name)
+            return self.ren[name]
+        raise Fail('unexpected token %r' % (k,))
+
+
+def c_expr_to_gallina(src, ren):
+    p = P(tokenize(src), ren)
+    e = p.expr()
+    if p.peek()[0] != 'eof':
+        raise Fail('trailing tokens in C expression: ' + src)
+    return p.asint(e)
+
+
+def c_cond_to_gallina(src, ren):
+    p = P(tokenize(src), ren)
+    e = p.expr()
+    if p.peek()[0] != 'eof':
+        raise Fail('trailing tokens in C expression: ' + src)
+    return p.asbool(e)
+
+
+# ---------------------------------------------------------------------------
+
+def func_body(text, name, ret_hint=None):
+    """Body (between the outermost braces) of the C function definition `name (`."""
+    for m in re.finditer(r'^' + re.escape(name) + r'\s*\(', text, re.M):
+        j = text.find(')', m.end())
+        # find the opening brace after the parameter list (skip K&R-free prototypes ending in ;)
+        depth, k = 0, m.end() - 1
+        while k < len(text):
+            if text[k] == '(':
+                depth += 1
+            elif text[k] == ')':
+                depth -= 1
+                if depth == 0:
+                    break
+            k += 1
+        rest = text[k + 1:]
+        mm = re.match(r'\s*\{', rest)
+        if not mm:
+            continue
+        start = k + 1 + mm.end()
+        depth, i = 1, start
+        while i < len(text) and depth:
+            if text[i] == '{':
+                depth += 1
+            elif text[i] == '}':
+                depth -= 1
+            i += 1
+        return text[start:i - 1]
+    raise Fail('function %s not found' % name)
+
+
+def strip_comments(t):
+    return re.sub(r'/\*.*?\*/', ' ', t, flags=re.S)
+
+
+def define(text, name):
+    m = re.search(r'^#define\s+' + re.escape(name) + r'\s+(.+?)\s*$', text, re.M)
+    if not m:
+        raise Fail('#define %s not found' % name)
+    return m.group(1).strip()
+
+
+def zlit(v):
+    v = int(v)
+    return '(%d)' % v if v < 0 else str(v)
+
+
+def main():
+    src, out = sys.argv[1], sys.argv[2]
+    rd = lambda f: open(os.path.join(src, f)).read()
+    yaep_c = strip_comments(rd('yaep.c'))
+    yaep_h = strip_comments(rd('yaep.h'))
+    sgramm = strip_comments(rd('sgramm.y'))
+    L = ['(* generated by tools/extract_facts.py from the C sources - do not edit *)',
+         'From YV Require Import Prelude.', 'From Coq Require Import String.', 'Local Open Scope Z_scope.', '']
+
+    # error codes
+    codes = re.findall(r'^#define\s+(YAEP_[A-Z_]+)\s+(\d+)\s*$', yaep_h, re.M)
+    if len(codes) < 17:
+        raise Fail('error code macros of yaep.h not found')
+    L.append('Definition err_codes : list (string * Z) := [')
+    L.append(';\n'.join('  ("%s"%%string, %s)' % (n, v) for n, v in codes))
+    L.append('].')
+    for n, v in codes:
+        L.append('Definition %s : Z := %s.' % (n, v))
+    L.append('')
+
+    # defaults of yaep_create_grammar
+    body = func_body(yaep_c, 'yaep_create_grammar')
+    dflt = {}
+    for f in ('debug_level', 'lookahead_level', 'one_parse_p', 'cost_p', 'error_recovery_p', 'recovery_token_matches',
+              'undefined_p', 'error_code'):
+        m = re.search(r'grammar->' + f + r'\s*=\s*([^;]+);', body)
+        if not m:
+            raise Fail('default of %s not found in yaep_create_grammar' % f)
+        v = m.group(1).strip()
+        v = {'TRUE': '1', 'FALSE': '0'}.get(v, v)
+        if not re.fullmatch(r'-?\d+', v):
+            v = define(yaep_c, v)
+        dflt[f] = int(v)
+    L.append('(* la, debug, one_parse, cost, recovery, match : the order of the setters *)')
+    L.append('Definition defaults : list Z := [%s].' % '; '.join(zlit(dflt[k]) for k in
+             ('lookahead_level', 'debug_level', 'one_parse_p', 'cost_p', 'error_recovery_p', 'recovery_token_matches')))
+    L.append('Definition default_undefined : Z := %s.' % zlit(dflt['undefined_p']))
+    L.append('Definition default_error_code : Z := %s.' % zlit(dflt['error_code']))
+    m = re.search(r'\*\s*grammar->error_message\s*=\s*\'\\0\'', body)
+    L.append('Definition default_message_empty : bool := %s.' % ('true' if m else 'false'))
+    L.append('')
+
+    # setters: old = g->f; g->f = <expr>; return old;
+    setters = [('yaep_set_lookahead_level', 'lookahead_level', 'level'), ('yaep_set_debug_level', 'debug_level', 'level'),
+               ('yaep_set_one_parse_flag', 'one_parse_p', 'flag'), ('yaep_set_cost_flag', 'cost_p', 'flag'),
+               ('yaep_set_error_recovery_flag', 'error_recovery_p', 'flag'), ('yaep_set_recovery_match', 'recovery_token_matches', 'n_toks')]
+    L.append('(* for each setter: the value stored for an argument, and whether it returns the previous value of the same field *)')
+    shapes = []
+    for i, (fn, field, arg) in enumerate(setters):
+        b = func_body(yaep_c, fn)
+        m_old = re.search(r'old\s*=\s*grammar->(\w+)\s*;', b)
+        m_set = re.search(r'grammar->(\w+)\s*=\s*([^;]+);', b)
+        m_ret = re.search(r'return\s+(\w+)\s*;', b)
+        if not (m_old and m_set and m_ret):
+            raise Fail('setter %s does not have the shape old = g->f; g->f = e; return old' % fn)
+        good = (m_old.group(1) == field and m_set.group(1) == field and m_ret.group(1) == 'old'
+                and b.index(m_old.group(0)) < b.index(m_set.group(0)))
+        shapes.append(good)
+        e = c_expr_to_gallina(m_set.group(2), {arg: 'x'})
+        L.append('Definition setter_store_%d (x : Z) : Z := %s.   (* %s *)' % (i, e, fn))
+    L.append('Definition setter_store (i : nat) (x : Z) : Z :=')
+    L.append('  match i with ' + ' | '.join('%d%%nat => setter_store_%d x' % (i, i) for i in range(6)) + ' | _ => x end.')
+    L.append('Definition setter_returns_old : list bool := [%s].' % '; '.join('true' if g else 'false' for g in shapes))
+    L.append('')
+
+    # reserved names / codes
+    for nm in ('AXIOM_NAME', 'END_MARKER_NAME', 'TERM_ERROR_NAME'):
+        L.append('Definition %s : string := %s%%string.' % (nm, define(yaep_c, nm)))
+    for nm in ('END_MARKER_CODE', 'TERM_ERROR_CODE'):
+        L.append('Definition %s : Z := %s.' % (nm, zlit(define(yaep_c, nm))))
+    L.append('Definition SYMB_CODE_TRANS_VECT_SIZE : Z := %s.' % define(yaep_c, 'SYMB_CODE_TRANS_VECT_SIZE'))
+    nil = define(yaep_h, 'YAEP_NIL_TRANSLATION_NUMBER')
+    L.append('Definition NIL_TRANSLATION_NUMBER_is_INT_MAX : bool := %s.' % ('true' if nil == 'INT_MAX' else 'false'))
+    L.append('')
+
+    # goto cache
+    L.append('Definition MAX_CACHED_GOTO_RESULTS : Z := %s.' % define(yaep_c, 'MAX_CACHED_GOTO_RESULTS'))
+    b = func_body(yaep_c, 'check_cached_transition_set')
+    m = re.search(r'if\s*\(\s*\(\s*dist\s*=\s*dists\s*\[\s*i\s*\]\s*\)\s*<=\s*(\d+)\s*\)\s*continue\s*;', b)
+    m2 = re.search(r'pl\s*\[\s*pl_curr\s*\+\s*1\s*-\s*dist\s*\]\s*!=\s*pl\s*\[\s*place\s*\+\s*1\s*-\s*dist\s*\]', b)
+    if not m or not m2:
+        raise Fail('check_cached_transition_set: distance threshold / origin comparison not in the expected shape')
+    L.append('Definition cache_thr : Z := %s.   (* start situations with distance <= cache_thr are not compared *)' % m.group(1))
+    L.append('')
+
+    # message buffer and formatting primitive
+    m = re.search(r'#define\s+YAEP_MAX_ERROR_MESSAGE_LENGTH\s+(\d+)', yaep_c)
+    if not m:
+        raise Fail('YAEP_MAX_ERROR_MESSAGE_LENGTH not found')
+    L.append('Definition MAX_ERROR_MESSAGE_LENGTH : Z := %s.' % m.group(1))
+    b = func_body(yaep_c, 'yaep_error')
+    if re.search(r'\bvsnprintf\s*\(\s*grammar->error_message\s*,\s*([^,]+),', b):
+        bound = re.search(r'\bvsnprintf\s*\(\s*grammar->error_message\s*,\s*([^,]+),', b).group(1)
+        be = c_expr_to_gallina(bound.replace('sizeof (grammar->error_message)', 'SZ').replace('sizeof(grammar->error_message)', 'SZ'),
+                               {'YAEP_MAX_ERROR_MESSAGE_LENGTH': 'MAX_ERROR_MESSAGE_LENGTH', 'SZ': '(MAX_ERROR_MESSAGE_LENGTH + 1)'})
+        L.append('Definition msg_bounded_by : option Z := Some %s.   (* vsnprintf bound *)' % be)
+    elif re.search(r'\bvsprintf\s*\(', b):
+        L.append('Definition msg_bounded_by : option Z := None.   (* vsprintf: unbounded *)')
+    else:
+        raise Fail('yaep_error: formatting primitive not recognised')
+    L.append('')
+
+    # implicit code counter of set_sgrammar
+    b = func_body(sgramm, 'set_sgrammar')
+    m = re.search(r'\bint\s+code\s*=\s*(\d+)\s*;', b)
+    if not m:
+        raise Fail('set_sgrammar: initial implicit code not found')
+    L.append('Definition implicit_code_start : Z := %s.' % m.group(1))
+    first_use = re.search(r'code\s*\+\+', b)
+    clob = re.search(r'\(\s*code\s*=\s*setjmp', b) or re.search(r'[^=!<>]\bcode\s*=\s*[^=]', b[m.end():first_use.start() if first_use else None])
+    L.append('Definition implicit_code_clobbered : bool := %s.' % ('true' if clob else 'false'))
+    L.append('')
+
+    # hash table expressions (C and C++)
+    for tag, fn, f in (('c', 'hashtab.c', None), ('cpp', 'hashtab.cpp', None)):
+        t = strip_comments(rd(fn))
+        m = re.search(r'if\s*\(\s*((?:htab->)?_?size\s*/\s*\d+\s*<=\s*(?:htab->)?_?number_of_elements\s*/\s*\d+)\s*\)\s*(?:this->)?expand', t)
+        if not m:
+            raise Fail('%s: expansion test not found' % fn)
+        ren = {'htab->size': 'size', 'htab->number_of_elements': 'n', '_size': 'size', '_number_of_elements': 'n', 'size': 'size', 'number_of_elements': 'n'}
+        L.append('Definition ht_need_expand_%s (size n : Z) : bool := %s.' % (tag, c_cond_to_gallina(m.group(1), ren)))
+        m = re.search(r'secondary_hash_value\s*=\s*([^;]+);', t)
+        if not m:
+            raise Fail('%s: secondary hash not found' % fn)
+        ren2 = dict(ren); ren2['hash_value'] = 'h'
+        L.append('Definition ht_step_%s (size h : Z) : Z := %s.' % (tag, c_expr_to_gallina(m.group(1), ren2)))
+        m = re.search(r'(?:create_hash_table|new hash_table)\s*\(\s*(?:htab->alloc|alloc|_alloc)\s*,\s*([^,]+),', t[t.index('expand'):])
+        if not m:
+            raise Fail('%s: new size in expansion not found' % fn)
+        L.append('Definition ht_new_size_%s (n : Z) : Z := %s.' % (tag, c_expr_to_gallina(m.group(1), ren)))
+    L.append('')
+
+    open(out, 'w').write('\n'.join(L) + '\n')
+
+
+if __name__ == '__main__':
+    try:
+        main()
+    except Fail as e:
+        sys.stderr.write('extract_facts: ' + str(e) + '\n')
+        sys.exit(1)
